@@ -230,7 +230,21 @@ func main() {
 	sort.Slice(rep.Functions, func(i, j int) bool { return rep.Functions[i].Func < rep.Functions[j].Func })
 	sort.SliceStable(rep.Obligations, func(i, j int) bool { return rep.Obligations[i].Func < rep.Obligations[j].Func })
 	rep.WallS = time.Since(t0).Seconds()
-	data, _ := json.MarshalIndent(rep, "", " ")
+	if len(rep.Obligations) > 20000 {
+		// large runs: a discharged obligation keeps its identity, kind, deciding solver and time; its clause text
+		// (repeated per return statement) is cut short so that the report stays small
+		for _, o := range rep.Obligations {
+			if o.Verdict == "discharged" {
+				if len(o.Clause) > 80 {
+					o.Clause = o.Clause[:80] + "..."
+				}
+				o.PerSolver = nil
+				o.Pos = ""
+				o.Prop = ""
+			}
+		}
+	}
+	data, _ := json.Marshal(rep)
 	if *out != "" {
 		os.WriteFile(*out, data, 0644)
 	} else {
